@@ -1,6 +1,6 @@
 """C15 — sender authorisation (DESIGN.md §4 C15)."""
 
-PKGS = ["./internal/check/authorize_sender/"]
+PKGS = ["./internal/check/authorize_sender/", "./internal/endpoint/smtp/"]
 
 
 def harness(c, n, replay_ops=None):
@@ -14,7 +14,7 @@ def run(c):
     if c.replay:
         harness(c, 1, replay_ops=c.replay.get("replay_ops") or [])
     else:
-        harness(c, 150000 if c.thorough else 6000)
+        harness(c, 300000 if c.thorough else 12000)
 
     def search():
         c.seed += 1000
